@@ -239,6 +239,21 @@ class MarbleHarness:
                 return False
             return base_isinstance.fn(it_, a, k)
         it.externals["builtins.isinstance"] = Native("isinstance", my_isinstance)
+
+        def my_timedelta(it_, a, k):
+            # marble times are floats of any size (timespan 1/3, 2.5e-7, ...): a timedelta BUILT from such a number holds it only to the microsecond.
+            # What comes back from total_seconds() is therefore some other number (an uninterpreted function of it) - a marble time computed
+            # through such a round trip is not provably index * timespan + shift.  (A timedelta the CALLER handed in is exact: it is its own length.)
+            if not a and set(k) == {"seconds"} and not isinstance(k["seconds"], (int, float)):
+                q = z3.Function("held_to_the_microsecond", z3.IntSort(), z3.IntSort())
+                from .values import IntSV as _IntSV
+                return Opaque("rel_time", "timedelta-built-from-a-number", total=_IntSV(q(it_.to_int(k["seconds"]))))
+            if not a and set(k) == {"seconds"}:
+                return k["seconds"]
+            if not k and (not a or (len(a) == 1 and a[0] == 0)):
+                return 0
+            raise Unsupported("timedelta(...) other than timedelta(seconds=x)")
+        it.externals["datetime.timedelta"] = Native("timedelta", my_timedelta)
         return it, w
 
     # -- parse: one arbitrary round of the token loop -----------------------------------------------------------------
